@@ -350,7 +350,6 @@ func sameOrPhi(a, b ssa.Value) bool {
 	return false
 }
 
-
 // requestOrderIsKept (R04.7): the lists of a COPY / MOVE / APPEND are not reordered behind the caller's back.
 func (c *Ctx) requestOrderIsKept(rule string) {
 	P, R := c.P, c.R
